@@ -28,6 +28,7 @@ def x_obligations(tier):
               ("h/s/q1/v1/**", "h/s/q1/v1/*;h/s/q1/v1/*/*", "h/s/q1/v1", ""), ("h/a/x/*?ext=y", "h/a/x/*?ext=m;h/a/x/*?ext=b", "h/a/x/v1/", ""),
               ("h/s/q1/v1/**/c", "h/s/q1/v1/c;h/s/q1/v1/*/c", "h/s/q1/v1/", ""), ("h/a/x/v1/m/**", "h/a/x/v1/m", "h/a/x/v1/", ""),
               ("h/a/*/v1,v2", "h/a/*/v1;h/a/*/v2", "h/a/x/v", "")]
+    unions += [("h/a/x,y", "h/a/x;h/a/y", "h/a/", ""), ("h/a/x,y/v1", "h/a/x/v1;h/a/y/v1", "h/a/", "")]      # an or-list inside a free value, every other segment literal
     unions += [("h/s/**/o/c", "h/s/*/*/o/c", "h/s/q1/v1/o/", ""), ("h/**/v1/o/c", "h/*/*/v1/o/c", "h/s/q1/v1/o/", "")]      # '**' followed by two or three segments
     for s, der, epre, leaf in unions:
         o.append(Obl(f"C10-list-union[{s}]", M, "list_union", env={"VF_SEARCH": s, "VF_DERIVED": der, "VF_EPRE": epre, "VF_LEAF": leaf, "VF_N": "2" if tier == "quick" else "3"}, timeout=T, path_timeout=200, family="C10-list",
